@@ -11,9 +11,9 @@ parameter (`Cfg.check`, `Cfg.digestOf`); its answer is computed when the request
 loop turn, any other checker whenever it likes).  JIDs, user names and resources are `List Char` (the C++
 compares and cuts plain strings: `jidToBareJid` = up to the first '/').
 
-`Cfg.fixPreauth` / `Cfg.fixReply` switch on the behaviour of fixes/C16-preauth.diff and
-fixes/C16-reply-binding.diff; both are `false` for the code as it is today (that is what the correspondence runs).
-No proofs here.
+Since repo commits 73b9a89 (jabber:client elements before authentication end the stream with `not-authorized`)
+and e590a14 (a checker reply is a child of the SASL object that asked for it and dies with it) the model has no
+"unfixed" mode any more.  No proofs here.
 -/
 namespace Qx.C16
 
@@ -47,10 +47,6 @@ structure Cfg where
   domain : List Char
   check : List Char → List Char → CheckRes
   digestOf : List Char → DigRes
-  /-- fixes/C16-preauth.diff applied: jabber:client elements before authentication end the stream -/
-  fixPreauth : Bool := false
-  /-- fixes/C16-reply-binding.diff applied: a checker reply dies with the SASL object that asked for it -/
-  fixReply : Bool := false
 
 /-! ### SASL server objects (QXmppSaslServer*) -/
 
@@ -275,19 +271,19 @@ def sasl2Authenticated (fresh : List Char) (c : Conn) (pre : List COut) : CRes :
     let c1 := { c with s2req := none }
     { conn := c1, outs := pre ++ [.send (.success2 c.jid false), .send (featuresOf c1)] }
 
-/-- with fixes/C16-reply-binding.diff replies are children of the SASL object and die with it -/
-def dropPending (cfg : Cfg) (c : Conn) : Conn :=
-  if cfg.fixReply then { c with pending := [] } else c
+/-- the SASL object is replaced or reset: the checker replies it asked for are its children and die with it
+(repo commit e590a14) -/
+def dropPending (c : Conn) : Conn := { c with pending := [] }
 
 /-- `handleStream` -/
 def openStream (cfg : Cfg) (c : Conn) (to : List Char) : CRes :=
-  let c1 := dropPending cfg { c with opened := true, sasl := none }
+  let c1 := dropPending { c with opened := true, sasl := none }
   if to ≠ cfg.domain then disconnect c1 [.send .hdr, .send (.streamError .hostUnknown)]
   else { conn := c1, outs := [.send .hdr, .send (featuresOf c1)] }
 
 /-- `<auth/>` / `<authenticate/>` -/
 def authStep (cfg : Cfg) (c : Conn) (v2 : Bool) (mech : List Char) (p : Payload) (bind : Bool) : CRes :=
-  let c0 := dropPending cfg { c with v2 := v2, s2req := if v2 then some bind else none }
+  let c0 := dropPending { c with v2 := v2, s2req := if v2 then some bind else none }
   match mechOf mech with
   | none => disconnect { c0 with sasl := none } [.send (.failure v2 .invalidMechanism)]
   | some m =>
@@ -371,10 +367,10 @@ def bindStep (fresh : List Char) (c : Conn) (res : List Char) : CRes :=
   let c1 := { c with resource := r, jid := withRes c.jid r }
   { conn := c1, outs := [.send (.bindResult c1.jid), .bound], used := res = [] }
 
-/-- `jabber:client` elements: with fixes/C16-preauth.diff an unauthenticated connection gets a
-`not-authorized` stream error instead -/
-def clientGate (cfg : Cfg) (c : Conn) (r : CRes) : CRes :=
-  if cfg.fixPreauth ∧ c.jid = [] then disconnect c [.send (.streamError .streamNotAuthorized)] else r
+/-- `jabber:client` elements (bind, session, stanzas): an unauthenticated connection gets a `not-authorized`
+stream error and is closed (repo commit 73b9a89) -/
+def clientGate (c : Conn) (r : CRes) : CRes :=
+  if c.jid = [] then disconnect c [.send (.streamError .streamNotAuthorized)] else r
 
 /-- XmppSocket: nothing parses before a stream header, and once garbage is buffered nothing ever does -/
 def gate (c : Conn) (r : CRes) : CRes :=
@@ -392,9 +388,9 @@ def connStep (cfg : Cfg) (fresh : List Char) (c : Conn) (ev : Ev) : CRes :=
   | .abort v2 =>
     gate c (if v2 then { conn := { c with s2req := none }, outs := [.send (.failure true .aborted)] } else idle c)
   | .closeStream => gate c (disconnect c [])
-  | .bind res => gate c (clientGate cfg c (bindStep fresh c res))
-  | .session => gate c (clientGate cfg c { conn := c, outs := [.send (.sessionResult c.jid)] })
-  | .stanza st => gate c (clientGate cfg c (clientStanza cfg c st))
+  | .bind res => gate c (clientGate c (bindStep fresh c res))
+  | .session => gate c (clientGate c { conn := c, outs := [.send (.sessionResult c.jid)] })
+  | .stanza st => gate c (clientGate c (clientStanza cfg c st))
 
 /-! ### the server: routing tables and the default stanza handler (no extensions, no S2S) -/
 
